@@ -35,10 +35,13 @@ Inputs == <<
 SymTabs == << <<>>,
               << <<S("s"), I(81)>> >>,
               << <<S("S"), VVec(<<I(83)>>)>>, <<S("s"), M(<< <<S("a"), I(82)>> >>)>> >>,
-              << <<S("S"), I(84)>>, <<S("facts"), I(85)>> >> >>
+              << <<S("S"), I(84)>>, <<S("facts"), I(85)>> >>,
+              \* symbols named like words of the language (a symbol name is any string)
+              << <<S("if"), I(88)>>, <<S("key"), VMap(<< <<S("a"), I(87)>> >>)>>, <<S("val"), I(86)>> >> >>
 
 Roots == { Ref(S("a")), Ref(S("A")), Ref(S("ab")), Ref(S("facts")), Ref(S("b")), Ref(S("zz")),
-           Sym(S("s")), Sym(S("S")), Sym(S("facts")), Sym(S("zz")), Call(S("nofn"), Val(I(1))) }
+           Sym(S("s")), Sym(S("S")), Sym(S("facts")), Sym(S("zz")), Call(S("nofn"), Val(I(1))),
+           Sym(S("val")), Sym(S("key")), Sym(S("if")) }
 
 StepPool == { FieldI(S("a")), FieldI(S("A")), FieldI(S("ab")), FieldI(S("facts")), FieldI(S("b")), FieldI(S("1")),
               PosI(0), PosI(1), PosI(2), PosI(3) }
